@@ -30,6 +30,59 @@ ALLOWED_GLOBALS = {"htmltools.html_dependency_render_mode"}
 EXEMPT = {(f"{CORE}:HTMLDependency.copy_to", "glob"): "directory listing only determines the order in which files are copied; copy_to returns None"}
 
 
+def class_level_state(ctx: Ctx, rule: str, only: Any = None) -> None:
+    """A list/dict/set defined in a class body and mutated through instances is shared by all of them."""
+    prog = ctx.prog
+    # class-level mutable state: a list/dict/set defined in a class body and mutated through instances is shared by all of them
+    for m_ in prog.modules.values():
+        if not m_.name.startswith("htmltools"):
+            continue
+        for ci_ in m_.classes.values():
+            if only is not None and ci_.name not in only:
+                continue
+            shared = {}
+            for st_ in ci_.node.body if hasattr(ci_, "node") else []:
+                tg_, val_ = None, None
+                if isinstance(st_, ast.Assign) and len(st_.targets) == 1 and isinstance(st_.targets[0], ast.Name):
+                    tg_, val_ = st_.targets[0].id, st_.value
+                elif isinstance(st_, ast.AnnAssign) and isinstance(st_.target, ast.Name) and st_.value is not None:
+                    tg_, val_ = st_.target.id, st_.value
+                if tg_ is None:
+                    continue
+                mutable = isinstance(val_, (ast.List, ast.Dict, ast.Set, ast.ListComp, ast.DictComp, ast.SetComp)) or \
+                    (isinstance(val_, ast.Call) and isinstance(val_.func, ast.Name) and val_.func.id in ("list", "dict", "set", "TagList", "defaultdict", "OrderedDict"))
+                if mutable:
+                    shared[tg_] = st_
+            if not shared:
+                continue
+            init = ci_.methods.get("__init__")
+            always = set()
+            if init is not None:
+                for st_ in init.body:      # top-level statements of __init__ run on every construction
+                    for t_ in (st_.targets if isinstance(st_, ast.Assign) else [st_.target] if isinstance(st_, ast.AnnAssign) and st_.value is not None else []):
+                        if isinstance(t_, ast.Attribute) and isinstance(t_.value, ast.Name) and t_.value.id == init.args.args[0].arg:
+                            always.add(t_.attr)
+            for nm_, st_ in shared.items():
+                if nm_ in always:
+                    continue
+                muts_ = []
+                for mn_, fn_ in ci_.methods.items():
+                    for n_ in ast.walk(fn_):
+                        if isinstance(n_, ast.Call) and isinstance(n_.func, ast.Attribute) and n_.func.attr in ("append", "extend", "insert", "add", "update", "pop", "remove", "clear", "setdefault", "sort", "reverse") \
+                                and isinstance(n_.func.value, ast.Attribute) and n_.func.value.attr == nm_:
+                            muts_.append(f"{mn_}: {norm(n_)[:60]}")
+                        if isinstance(n_, (ast.Assign, ast.AugAssign)):
+                            for t_ in (n_.targets if isinstance(n_, ast.Assign) else [n_.target]):
+                                if isinstance(t_, ast.Subscript) and isinstance(t_.value, ast.Attribute) and t_.value.attr == nm_:
+                                    muts_.append(f"{mn_}: {norm(n_)[:60]}")
+                if muts_:
+                    ctx.fail(rule, f"{m_.name}:{ci_.name}", f"class attribute {nm_} = {norm(st_.value)[:30]} mutated in {muts_[0]}",
+                             f"`{ci_.name}.{nm_}` is a mutable object created once in the class body and not replaced by every __init__, while `{muts_[0]}` mutates it: "
+                             f"all instances share it, so what one object holds depends on the objects built before it",
+                             witness=f"two {ci_.name} objects created one after the other")
+    ctx.ok(rule, "no class-level mutable attribute is mutated through instances without being re-created by __init__" + (f" ({', '.join(sorted(only))})" if only else ""))
+
+
 def check(ctx: Ctx) -> None:
     ctx.explanation = (
         "Engine D: over the call-graph closure (callees resolved through the module's symbols, attribute calls by method name) of the "
@@ -79,52 +132,7 @@ def check(ctx: Ctx) -> None:
                      witness="render A then B vs B alone", line=getattr(node, "lineno", None))
         n_sites += 1
         ctx.ok("C18.scan", f"{q}: no N1/N2/N3/N6/N7 site")
-    # class-level mutable state: a list/dict/set defined in a class body and mutated through instances is shared by all of them
-    for m_ in prog.modules.values():
-        if not m_.name.startswith("htmltools"):
-            continue
-        for ci_ in m_.classes.values():
-            shared = {}
-            for st_ in ci_.node.body if hasattr(ci_, "node") else []:
-                tg_, val_ = None, None
-                if isinstance(st_, ast.Assign) and len(st_.targets) == 1 and isinstance(st_.targets[0], ast.Name):
-                    tg_, val_ = st_.targets[0].id, st_.value
-                elif isinstance(st_, ast.AnnAssign) and isinstance(st_.target, ast.Name) and st_.value is not None:
-                    tg_, val_ = st_.target.id, st_.value
-                if tg_ is None:
-                    continue
-                mutable = isinstance(val_, (ast.List, ast.Dict, ast.Set, ast.ListComp, ast.DictComp, ast.SetComp)) or \
-                    (isinstance(val_, ast.Call) and isinstance(val_.func, ast.Name) and val_.func.id in ("list", "dict", "set", "TagList", "defaultdict", "OrderedDict"))
-                if mutable:
-                    shared[tg_] = st_
-            if not shared:
-                continue
-            init = ci_.methods.get("__init__")
-            always = set()
-            if init is not None:
-                for st_ in init.body:      # top-level statements of __init__ run on every construction
-                    for t_ in (st_.targets if isinstance(st_, ast.Assign) else [st_.target] if isinstance(st_, ast.AnnAssign) and st_.value is not None else []):
-                        if isinstance(t_, ast.Attribute) and isinstance(t_.value, ast.Name) and t_.value.id == init.args.args[0].arg:
-                            always.add(t_.attr)
-            for nm_, st_ in shared.items():
-                if nm_ in always:
-                    continue
-                muts_ = []
-                for mn_, fn_ in ci_.methods.items():
-                    for n_ in ast.walk(fn_):
-                        if isinstance(n_, ast.Call) and isinstance(n_.func, ast.Attribute) and n_.func.attr in ("append", "extend", "insert", "add", "update", "pop", "remove", "clear", "setdefault", "sort", "reverse") \
-                                and isinstance(n_.func.value, ast.Attribute) and n_.func.value.attr == nm_:
-                            muts_.append(f"{mn_}: {norm(n_)[:60]}")
-                        if isinstance(n_, (ast.Assign, ast.AugAssign)):
-                            for t_ in (n_.targets if isinstance(n_, ast.Assign) else [n_.target]):
-                                if isinstance(t_, ast.Subscript) and isinstance(t_.value, ast.Attribute) and t_.value.attr == nm_:
-                                    muts_.append(f"{mn_}: {norm(n_)[:60]}")
-                if muts_:
-                    ctx.fail("C18.N7", f"{m_.name}:{ci_.name}", f"class attribute {nm_} = {norm(st_.value)[:30]} mutated in {muts_[0]}",
-                             f"`{ci_.name}.{nm_}` is a mutable object created once in the class body and not replaced by every __init__, while `{muts_[0]}` mutates it: "
-                             f"all instances share it, so what one object holds depends on the objects built before it",
-                             witness=f"two {ci_.name} objects created one after the other")
-    ctx.ok("C18.N7", "no class-level mutable attribute is mutated through instances without being re-created by __init__")
+    class_level_state(ctx, "C18.N7")
     # ---- N8: a mutable default argument that is mutated, stored or returned is one object shared by all calls -----------------------------------
     _MUT = ("append", "extend", "insert", "add", "update", "pop", "remove", "clear", "setdefault", "sort", "reverse", "popitem", "discard", "__iadd__")
     n8 = 0
